@@ -142,10 +142,31 @@
   RR (`postVerdict`); otherwise the clause is skipped, all others apply.  Both requests are in
   corpus/C10 (they pass; the implementation answers them as the model does).
 
-  Proved: (a)–(m).  Not proved, precisely:
-  (1) `C10_full` itself.  Of the audit, the clauses of `auditResponse` *after* the response is decoded
-      remain for row 3, the authenticated requests a loaded zone answers (row 4 is closed:
-      `C10_audit_nofit`; row 1: `C10_audit_rejected`; row 2: `C10_audit_row2`), all of which needed first
+  (n) the walk assembled: `C10_of_row3 : C10_row3 → C10_full` — requests that do not reach a TSIG
+      record (`C10_audit_pre_tsig`), rows 1, 2 and 4 (`C10_audit_rejected`, `C10_audit_row2`,
+      `C10_audit_nofit`) pass the audit and the rows are exhaustive (`C10_rows_exhaustive`), so
+      `C10_full` holds as soon as row 3 does.
+
+  Proved: (a)–(n).  Not proved, precisely:
+  (1) `C10_row3` — the one obligation `C10_full` is reduced to (`C10_of_row3`): an authenticated request
+      that a loaded zone *answers* passes the audit.  Everything that does not depend on the row is in
+      place and applies verbatim (`auditResponse_authenticated`; `response_mac_audit` and
+      `tsig_prefix_of_good` hold for every `Good` writer, answers included; `auditNeed_eq`,
+      `reserved_of_auth`, `C10_audit_fits` for "fits"; `C10_decoded_authenticated_answer` for "the TSIG
+      record is last").  What row 3 still needs:
+      (3a) from the answering writer, beyond what `signed_answer_final_of_run` exports: its header view
+           (the RCODE is `specResolve`'s, 0 or 3, never 9: `notauth-on-authenticated`), the extended-RCODE
+           octet 0 of its OPT (`F.edns` with `upper = 0`; only the payload is exported), and that the
+           reply TSIG fits (as in `C10_audit_authenticated_nodata`, from `tsigProcess_rows`);
+      (3b) `AnsweredNormally` for answers: under `plainComparable` the scan of the stripped request has
+           verdict `answer` with the same question, EDNS state and limit (`specScanWith_lookup_indep` +
+           `endVerdict_transfer`, exactly as in `plain_nodata_of_comparable`); then
+           `C05_end_to_end_signed` on the request and `C05_end_to_end` on the stripped request give the
+           same `specResolve` — RCODE, AA, answer and authority sections agree as multisets of `rrKey`
+           when neither response is truncated; `d.tc` (TC over UDP only, with no data: C04 T3 with the
+           TSIG reserved) and the additional section (`subMultiset`: less room with the TSIG reserved —
+           C04's limit monotonicity) are the parts C05 / C04 state only under `NoTruncation`.
+      History of the clauses (all closed except as said above):
       (1a) (closed: `C10_request_view`, (j)) the request-side link: `viewRequest` (the audit's own walk
            to the TSIG RR: `findTsig`, `specDecodeName`, `labelsOf`, `parseRdata`, the request prefix)
            yields the key name, RDATA fields and prefix of the model's `t` / `mw` of the same `TsigRun`;
@@ -169,10 +190,9 @@
            TSIG — no hypothesis on the request's key name is needed, the model lower-cases it)
            `response-mac`: `macFn` = HMAC of the RFC digest input (`C10_response_mac_eq_rfc`, (d)) over the
            octets before the decoded record;
-      (1f) `data-in-unauthenticated`, `tc-in-error`, `aa-in-error` (decoded facts in (g): an = ns = [];
-           TC / AA clear need the header view of `signed_error_final`'s writer) and "answered
-           normally": comparison with the response to the stripped request (`stripTsigRr`) — needs
-           the scan of the stripped request and `C05_end_to_end(_signed)` / C04's limit monotonicity;
+      (1f) (closed for rows 1 and 2: `C10_audit_rejected`, `C10_audit_row2`; open for row 3, see (3b))
+           `data-in-unauthenticated`, `tc-in-error`, `aa-in-error` and "answered normally": comparison
+           with the response to the stripped request (`stripTsigRr`), under `plainComparable`;
   (2) (closed) for authenticated requests that a loaded zone *answers*:
       `C10_decoded_authenticated_answer` — in every decoding the TSIG record is the last element of
       the additional section, with the key name as owner (up to case), `tsigRdata` of the prepared RR
@@ -1669,6 +1689,53 @@ theorem C10_audit_row2 (cfg : Cfg) (cat : List Spec.Server.ZoneCfg) (tr : Transp
     intro x hx
     rcases har x hx with h1 | h1 <;> simp [h1]
   rw [this]; rfl
+
+/-! ## (n) the walk assembled -/
+
+open QV.ServerScan in
+/-- what remains of `C10_full`: **row 3** — an authenticated request that a loaded zone answers passes
+    the audit (`plain` being the response to the request without its TSIG record) -/
+def C10_row3 : Prop :=
+  ∀ (cfg : Cfg) (cat : List Spec.Server.ZoneCfg) (tr : Transport) (now : Nat) (req : Bytes),
+    now < 2 ^ 48 → ServerSafety.CfgWF cfg → 512 ≤ cfg.payload → cfg.payload ≤ 65535 → req.size ≤ Rdata.USIZE_MAX →
+    KeysOK cfg.keys →
+    ∀ (nowT : TimeSigned) (t : ReadTsigRr) (mw : Bytes) (r' : Reader.Reader) (question : Option (WName × Nat × Nat))
+      (d : Spec.Server.Delim) (kn alg : WName) (rest : List UInt8),
+      AuditRun cfg cat tr now req nowT t mw r' question d kn alg rest →
+      ServerContent.RowAuthAnswer cfg tr now 65535 req t mw r' →
+      ∀ b, handleMessage cfg tr now 65535 req = .ok (some b) →
+        (Spec.ServerTsig.audit hmSpec cat cfg.payload (specKeys cfg.keys) req now (tr = .udp)
+          (toResp (handleMessage cfg tr now 65535 req))
+          (match Spec.ServerTsig.stripTsigRr req with
+            | some p => toResp (handleMessage cfg tr now 65535 p)
+            | none => .none)).1 = []
+
+open QV.ServerScan in
+/-- **`C10_full` from row 3**: requests that do not reach a TSIG record (`C10_audit_pre_tsig`), rejected
+    requests (`C10_audit_rejected`), authenticated requests with a no-data verdict (`C10_audit_row2`)
+    and replies whose TSIG does not fit (`C10_audit_nofit`) pass the audit; the rows are exhaustive
+    (`C10_rows_exhaustive`) — so `C10_full` holds as soon as row 3 does -/
+theorem C10_of_row3 (h3 : C10_row3) : C10_full := by
+  intro cfg cat tr now req hnow hcfg hpay hp16 hreq hk
+  simp only
+  by_cases hr : (Spec.Server.specScan cat cfg.payload req).respond = true
+  · by_cases hv : (Spec.Server.specScan cat cfg.payload req).verdict = .tsigReached
+    · obtain ⟨nowT, t, mw, r', question, d, kn, alg, rest, h⟩ :=
+        auditRun_exists cfg cat tr now req hnow hpay hp16 hreq hk hr hv
+      obtain ⟨hrM, _, _, _⟩ := h.scanM
+      obtain ⟨a1, a2⟩ := C10_audit_scan_agrees cfg cat req
+      obtain ⟨b, hb⟩ := ServerScan.signed_response_exists cfg hcfg tr now 65535 req (minBuf_le tr _ hp16) hpay hreq
+        hnow hrM (a2.mp hv)
+      obtain ⟨hrows, _⟩ := C10_rows_exhaustive cfg tr now 65535 req (minBuf_le tr _ hp16) hpay hrM t mw r' question
+        h.hrun b hb
+      rcases hrows with h1 | h2 | h3' | h4
+      · exact C10_audit_rejected cfg cat tr now req hpay hp16 hk h h1 b hb _
+      · exact C10_audit_row2 cfg cat tr now req hpay hp16 hreq hk h h2 b hb
+      · exact h3 cfg cat tr now req hnow hcfg hpay hp16 hreq hk nowT t mw r' question d kn alg rest h h3' b hb
+      · exact C10_audit_nofit cfg cat tr now req hpay hp16 h h4 b hb _
+    · exact C10_audit_pre_tsig cfg hcfg cat tr now req hpay hp16 hreq _ (Or.inr hv)
+  · exact C10_audit_pre_tsig cfg hcfg cat tr now req hpay hp16 hreq _
+      (Or.inl (by cases hh : (Spec.Server.specScan cat cfg.payload req).respond <;> simp_all))
 
 /-! ## non-vacuity: concrete instances of the hypotheses used above -/
 
